@@ -41,9 +41,18 @@ CAL = json.load(open(os.path.join(common.VERIF, 'tools', 'calibration_C05.json')
 SAN_EXTRA = ['-fno-sanitize=float-cast-overflow']   # DESIGN §9 O1: (int)floor(NaN) at opus_encoder.c:1226 is benign
 
 
-def _h(ctx, variant):
-    return ctx.harness('c05_encsize', ['c05_encsize.c'], variant=variant,
-                       extra=SAN_EXTRA if variant == 'san' else [])
+def _h(ctx, variant, name='c05_encsize'):
+    """Compile the harness against the library built from the tree under test.  The library cache is shared with other
+    checks and pruned by them; if the cached build vanished under us, rebuild once."""
+    for attempt in (0, 1):
+        try:
+            return ctx.harness(name, [name + '.c'], variant=variant, extra=SAN_EXTRA if variant == 'san' else [])
+        except RuntimeError:
+            if attempt:
+                raise
+            ctx._libs.pop(variant, None)
+            import shutil
+            shutil.rmtree(os.path.join(common.CACHE, 'lib', '%s-%s' % (common.repo_hash(), variant)), ignore_errors=True)
 
 
 def ties(ctx):
@@ -160,9 +169,11 @@ def _scan(out, suite, cmd, wit, stats):
             stats['ms'] = stats.get('ms', 0) + 1
             d = _kv(line)
             try:
-                fs, streams, afs, outb, vbr, br, ret = (int(d[k]) for k in ('fs', 'streams', 'afs', 'out', 'vbr', 'br', 'ret'))
+                fs, streams, afs, outb, vbr, br, ret, nch = (int(d[k]) for k in ('fs', 'streams', 'afs', 'out', 'vbr', 'br', 'ret', 'ch'))
             except (KeyError, ValueError):
                 continue
+            if br > 0:      # opus_multistream_encoder_ctl(OPUS_SET_BITRATE) clamps to [500, 300000] per channel
+                br = min(300000 * nch, max(500 * nch, br))
             small = streams * 2 - 1 + (streams if fs // afs == 10 else 0)
             why = None
             if outb < small:
